@@ -3,7 +3,8 @@
    GenTargets.v (translator/gen_targets.py). *)
 From Coq Require Import List NArith Bool.
 Import ListNotations.
-Require Import XV.GenTargets XV.TargetsDefs XV.TargetsModel XV.TargetsSpecModel XV.TargetsAgreeModel XV.TargetsWitnessModel.
+From Coq Require Import Sorted.
+Require Import XV.GenTargets XV.TargetsDefs XV.TargetsModel XV.TargetsSpecModel XV.TargetsAgreeModel XV.TargetsWitnessModel XV.TargetsIndexModel.
 
 (* Every well-nested event sequence (the flat image of an item tree between startDocument and endDocument), any
    chunking of its character data, with or without a prefix resolver, document or fragment mode: the builder ends in
@@ -125,6 +126,27 @@ Theorem flush_table_covers_structural_events : forall t m top k,
   structural t m top k = true -> gen_flush_tbl t m k = true.
 Proof. exact structural_flushes. Qed.
 Print Assumptions flush_table_covers_structural_events.
+
+(* The document-order indexes of the source-tree target (XalanSourceTreeDocument::m_nextIndexValue; what
+   DOMServices::isNodeAfter and the node-list sorting compare): for EVERY event sequence - well nested or not, any
+   chunking of the characters - fed to a builder whose document counter stands at a, the tree component is the tree of
+   run_target, and reading the built tree in document order (element, its attribute nodes, its children) gives exactly
+   a, a+1, a+2, ...: strictly increasing.  The proof uses that startElement() creates the element AFTER the flush
+   (GenTargets.s_element_created_after_flush, read from the source); everywhere else creation and linking are adjacent.
+   FormatterToXercesDOM stores no index: document order in a Xerces DOM is structural (XercesDocumentWrapper numbers
+   the finished tree: wrap_is_preorder in Properties_C05.v). *)
+Theorem source_tree_target_indexes_are_preorder : forall m res a evs t ix,
+  run_indexes m res a evs = Some (t, ix) ->
+  run_target STREE m res evs = Some t /\
+  (exists n, flat_map ix_pre ix = nseq a n) /\
+  StronglySorted N.lt (flat_map ix_pre ix).
+Proof. exact indexes_all. Qed.
+Print Assumptions source_tree_target_indexes_are_preorder.
+
+Example indexes_computed :
+  match run_indexes MDoc None st_first_index (script w_ix) with Some (_, ix) => Some ix | None => None end =
+  Some [IxN 2 1 [IxN 4 0 []; IxN 5 0 []; IxN 6 0 []]].
+Proof. exact ex_ix. Qed.
 
 (* tie: the flush table the model was written against = the one regenerated from the two .cpp files *)
 Theorem targets_as_modelled : forall t m k, flush_tbl t m k = gen_flush_tbl t m k.
